@@ -276,7 +276,7 @@ class GaussianModeSpacing:
     respect to the spacing of its own axis."""
 
     target = "deepali.core.image:spatial_derivatives"
-    properties = ("C12", "C13")
+    properties = ("C12", "C13", "C17")
 
     def cases(self, tier):
         for D in (2, 3):
